@@ -156,8 +156,9 @@ def Explainer.seqMappings (e : Explainer) (mm : List Mapping) (useRanges : Bool)
   e.seqMappingsAux useRanges mm.length mm [sp]
 
 /-- `i == 0 ? " " : ", "` before every entry -/
-def entries (items : List (List Piece)) : List Piece :=
-  (items.zipIdx.map fun (x, i) => (if i == 0 then [sp] else [commaP, sp]) ++ x).flatten
+def entries : List (List Piece) → List Piece
+  | [] => []
+  | x :: xs => [sp] ++ x ++ xs.flatMap fun y => [commaP, sp] ++ y
 
 /-- `fmt.Sprintf("%+d", v)` -/
 def signed (v : Int) : List Nat :=
@@ -189,12 +190,13 @@ def classGlyphs (tbl : List (Nat × Nat)) : List (List Nat) :=
 
 /-- `first`/`second` class lists: `" A B, C"` -/
 def Explainer.classList (e : Explainer) (tbl : List (Nat × Nat)) : List Piece :=
-  ((classGlyphs tbl).zipIdx.map fun (gg, i) =>
-    (if i > 0 then [commaP] else []) ++ [sp] ++ e.writeGlyphList gg).flatten
+  match classGlyphs tbl with
+  | [] => []
+  | gg :: more => [sp] ++ e.writeGlyphList gg ++ more.flatMap fun gg' => [commaP, sp] ++ e.writeGlyphList gg'
 
 def semiP : Piece := tk tSemicolon [59]
 
-def Explainer.subtable (e : Explainer) (i : Nat) : Subtable → List Piece
+def Explainer.subtable (e : Explainer) (first : Bool) : Subtable → List Piece
   | .gsub1_1 cov delta =>
     e.seqMappings (cov.map fun g => ([g], [(g + delta) % 65536])) true
   | .gsub1_2 cov subst =>
@@ -211,7 +213,7 @@ def Explainer.subtable (e : Explainer) (i : Nat) : Subtable → List Piece
   | .gpos2_1 pairs =>
     entries (pairs.map fun p => e.writeGlyphList [p.1.1, p.1.2] ++ arrow ++ writePairAdjust p.2)
   | .gpos2_2 cov c1 c2 adjust =>
-    (if i == 0 then [eolP, tab] else []) ++ [tk tSlash [47]] ++ e.writeGlyphList cov ++ [tk tSlash [47]] ++
+    (if first then [eolP, tab] else []) ++ [tk tSlash [47]] ++ e.writeGlyphList cov ++ [tk tSlash [47]] ++
       [eolP, tab, tk tIdentifier kwFirst] ++ e.classList c1 ++ [semiP, eolP, tab, tk tIdentifier kwSecond] ++
       e.classList c2 ++ [semiP] ++
       (adjust.map fun row =>
@@ -222,8 +224,11 @@ def orSep : List Piece := [sp, tk tOr [124, 124], eolP, tab]
 
 /-- `"GSUB%d:"` / `"GPOS%d:"`, flags, subtables -/
 def Explainer.lookupBody (e : Explainer) (kw : List Nat) (l : Lookup) : List Piece :=
-  let head := [tk tIdentifier (kw ++ decimal l.typ), tk tColon [58]] ++ explainFlags l.flags
-  (l.subtables.zipIdx.map fun (st, i) => (if i == 0 then head else orSep) ++ e.subtable i st).flatten
+  match l.subtables with
+  | [] => []
+  | st :: more =>
+    [tk tIdentifier (kw ++ decimal l.typ), tk tColon [58]] ++ explainFlags l.flags ++ e.subtable true st ++
+      more.flatMap fun st' => orSep ++ e.subtable false st'
 
 /-- the pieces of `ExplainGsub` -/
 def explainGsubP (f : Font) (ls : List Lookup) : List Piece :=
